@@ -199,6 +199,12 @@ def cases_validators(tier):
         # a realization with weight zero is still a realization: thresholds default and clamp to the ensemble SIZE
         yield "realizations/min_success=%s/one-zero-weight" % ms, {"v": "realizations", "ms": ms, "zero": True}
     yield "objectives", {"v": "objectives"}
+    # the estimator / filter index maps of objectives and non-linear constraints: one index per function - given once they are
+    # broadcast, of any other wrong length they are rejected
+    for which in ("objectives", "nonlinear"):
+        for field in ("function_estimators", "realization_filters"):
+            for L in (1, 2, 3, 4):
+                yield "%s/%s-of-length-%d-for-3-functions" % (which, field, L), {"v": "index-maps", "which": which, "field": field, "L": L, "tr": False, "bad": False}
     for tr in (False, True):
         for bad in (False, True):
             yield "nonlinear/transform=%s/inverted=%s" % (tr, bad), {"v": "nonlinear", "tr": tr, "bad": bad}
@@ -276,6 +282,31 @@ def scn_validators(T, case):
         raw(cls, "_broadcast_and_normalize")(me)
         T.prove("C18.objectives.weights_normalised", T.same(T.total([me.weights[i] for i in range(2)]), 1.0) if T.symbolic else abs(float(np.sum(me.weights)) - 1) < 1e-12)
         frozen_ok(T, "C18.objectives", me)
+    elif v == "index-maps":
+        n, L, field = 3, case["L"], case["field"]
+        given = np.array([(i + 1) % 2 for i in range(L)], dtype=np.intc)
+        other = "realization_filters" if field == "function_estimators" else "function_estimators"
+        if case["which"] == "objectives":
+            cls = _cls(T, sh, "_objective_functions_config", "ObjectiveFunctionsConfig")
+            me = Model(weights=_imm(T, T.real("weights", (n,), lo=0.001)), **{field: _imm(T, given), other: None})
+            call = lambda: raw(cls, "_broadcast_and_normalize")(me)  # noqa: E731
+        else:
+            cls = _cls(T, sh, "_nonlinear_constraints_config", "NonlinearConstraintsConfig")
+            lb = T.real("lb", (n,))
+            me = Model(lower_bounds=_imm(T, lb), upper_bounds=_imm(T, T.real("ub", (n,), ge=lb)), **{field: _imm(T, given), other: None})
+            call = lambda: raw(cls, "_broadcast_and_check")(me, info(None))  # noqa: E731
+        me._immutable()
+        try:
+            call()
+        except ValueError:
+            T.prove("C18.index_maps.rejects_only_lengths_other_than_one_and_the_number_of_functions", L not in (1, n))
+            return
+        T.prove("C18.index_maps.lengths_other_than_one_and_the_number_of_functions_are_rejected", L in (1, n))
+        got = getattr(me, field)
+        T.prove("C18.index_maps.one_index_per_function_read_only", got is not None and tuple(got.shape) == (n,) and not got.flags.writeable
+                and [int(g) for g in got] == [int(given[i if L == n else 0]) for i in range(n)], repr(got))
+        T.prove("C18.index_maps.absent_map_stays_absent", getattr(me, other) is None)
+        frozen_ok(T, "C18.index_maps", me)
     elif v in ("nonlinear", "variables"):
         n = 3
         lb = T.real("lb", (1,))
@@ -561,7 +592,28 @@ def scn_native(T, case):
     rng = np.random.default_rng(seed)
     with_tr = bool(rng.integers(0, 2))
     d, n = _gen_config(rng, with_tr)
-    tr = OptModelTransforms(variables=VariableScaler(rng.uniform(0.5, 3, size=n), rng.normal(size=n))) if with_tr else None
+    nl_tr = None
+    if with_tr and "nonlinear_constraints" in d and rng.integers(0, 2):
+        from ropt.transforms.base import NonLinearConstraintTransform
+
+        class _ConstraintScaler(NonLinearConstraintTransform):
+            def __init__(self, k):
+                self.k = k
+
+            def to_optimizer(self, constraints):
+                return constraints / self.k
+
+            def from_optimizer(self, constraints):
+                return constraints * self.k
+
+            def bounds_to_optimizer(self, lower_bounds, upper_bounds):
+                return lower_bounds / self.k, upper_bounds / self.k
+
+            def nonlinear_constraint_diffs_from_optimizer(self, lower_diffs, upper_diffs):
+                return lower_diffs * self.k, upper_diffs * self.k
+
+        nl_tr = _ConstraintScaler(float(rng.uniform(2.0, 5.0)))
+    tr = OptModelTransforms(variables=VariableScaler(rng.uniform(0.5, 3, size=n), rng.normal(size=n)), nonlinear_constraints=nl_tr) if with_tr else None
     cfg = EnOptConfig.model_validate(d, context=tr)
     found = []
     _walk(cfg, "config", set(), found)
@@ -604,6 +656,20 @@ def scn_native(T, case):
     T.prove("C18.native.sharing_validated_sub_configurations_does_not_change_them", all(np.array_equal(obj, old, equal_nan=True) for _, obj, old in snap)
             and cfg.gradient is subs_by_path(subs, "config.gradient"))
     del other
+    # ... the same for the sections that the validation context transforms in their own validators (variables, non-linear
+    # constraints) and for the normalised ones: a validated object placed into another configuration is frozen - the first
+    # configuration does not change - and the other configuration carries the same values
+    before = cfg.model_copy(deep=True)
+    d3 = dict(d)
+    for section in ("variables", "nonlinear_constraints", "objectives", "realizations", "optimizer"):
+        if getattr(cfg, section, None) is not None:
+            d3[section] = getattr(cfg, section)
+    other = EnOptConfig.model_validate(d3, context=tr)
+    T.prove("C18.native.sharing_validated_sub_configurations_does_not_change_them", all(np.array_equal(obj, old, equal_nan=True) for _, obj, old in snap) and _equal(cfg, before),
+            "variables / non-linear constraints / objectives / realizations shared")
+    T.prove("C18.native.a_configuration_built_from_validated_sections_is_equivalent",
+            all(_equal(getattr(other, section), getattr(cfg, section)) for section in ("variables", "nonlinear_constraints", "objectives", "realizations") if getattr(cfg, section, None) is not None))
+    del other
     dumped = cfg.model_dump(round_trip=True)
     T.prove("C18.native.revalidating_the_dumped_dictionary_is_idempotent", _equal(EnOptConfig.model_validate(dumped), cfg))
 
@@ -635,11 +701,29 @@ def scn_canonical_perturbations(T, case):
     C10.scn_fix(Renamed(T, "C10.", "C18.canonical."), case)
 
 
+# ------------------------------------------------------------------------------------ a variable scaler that has served another configuration before
+def cases_scaler_reuse(tier):
+    from contracts import C11
+
+    for cid, c in C11.cases_linear(tier):
+        if c.get("prior"):
+            yield cid, c
+
+
+def scn_scaler_reuse(T, case):
+    """Canonical linear constraints under a variable transform (rows scaled to a largest absolute entry of one, bounds by the same factors) whatever the scaler object has been used for before (C11's linear-constraint scenario with a used scaler, under this property's prefix)."""
+    from contracts import C11
+    from contracts.reuse import Renamed
+
+    C11.scn_linear(Renamed(T, "C11.linear.", "C18.scaler_reuse."), case)
+
+
 SCENARIOS = [
     Scenario("config_utils", scn_utils, cases_utils, {"quick": 10, "thorough": 100}),
     Scenario("validators", scn_validators, cases_validators, {"quick": 5, "thorough": 50}),
     Scenario("native_attack_and_revalidation", scn_native, cases_native, {"quick": 4, "thorough": 25}),
     Scenario("canonical_perturbation_settings", scn_canonical_perturbations, cases_canonical_perturbations, {"quick": 5, "thorough": 50}),
+    Scenario("scaler_object_reused_for_another_configuration", scn_scaler_reuse, cases_scaler_reuse, {"quick": 5, "thorough": 30}),
 ]
 
 MANIFEST = {
